@@ -180,14 +180,17 @@ class AioHarness:
             w.thread = prev
 
     # -- scenarios --------------------------------------------------------------------------------------------------
-    def run_schedule(self, ctx, threadsafe, name, caller, running, stage2_first):
+    def run_schedule(self, ctx, threadsafe, name, caller, running, stage2_first, sched_running=None):
+        """`running`: the loop's state when dispose() is called; `sched_running`: its state when the action was scheduled, if different (the loop
+        was started - or stopped - in between: what dispose() does must follow the state it finds, not the one the schedule call saw)"""
         it, o = self.setup(ctx, threadsafe)
         w = self.w
         cname = "AsyncIOThreadSafeScheduler" if threadsafe else "AsyncIOScheduler"
         rel = TFILE if threadsafe else AFILE
-        uid = f"{rel}::{cname}.{name}[dispose from {caller}, loop {'running' if running else 'not running'}{', first stage already ran' if stage2_first else ''}]"
+        between = "" if sched_running is None else (", scheduled while the loop was " + ("running" if sched_running else "not running yet"))
+        uid = f"{rel}::{cname}.{name}[dispose from {caller}, loop {'running' if running else 'not running'}{', first stage already ran' if stage2_first else ''}{between}]"
         w.caller_kind = caller
-        w.running = running
+        w.running = running if sched_running is None else sched_running
         action, st0 = Opaque("callback", "action"), ctx.fresh("state", "val")
         d = ctx.fresh("delay", "int")
         if name == "schedule_relative":
@@ -206,6 +209,7 @@ class AioHarness:
                      detail="the scheduling thread may not be the loop's: only call_soon_threadsafe may be used")
         else:
             self.rec(ctx, uid + "/through-" + ("call_soon" if name == "schedule" else "call_later"), first[0][0] == ("call_soon" if name == "schedule" else "call_later"))
+        w.running = running
         if stage2_first:
             self.run_loop_queue(it)   # the loop ran what was queued (the first stage) before dispose() is called
         n0 = len(w.log)
@@ -334,6 +338,10 @@ class AioHarness:
                             for s2 in ((False, True) if (threadsafe and name == "schedule_relative" and running) else (False,)):
                                 for p in explore(lambda c, _t=threadsafe, _n=name, _c=caller, _r=running, _s=s2: self.run_schedule(c, _t, _n, _c, _r, _s)):
                                     self.results.extend(p.results)
+                                if threadsafe:
+                                    # the loop changed state between the schedule call and dispose()
+                                    for p in explore(lambda c, _t=threadsafe, _n=name, _c=caller, _r=running, _s=s2: self.run_schedule(c, _t, _n, _c, _r, _s, not _r)):
+                                        self.results.extend(p.results)
         except Unsupported as e:
             self.unsupported = str(e)
         except PyExc as e:
